@@ -84,9 +84,13 @@ structure Cfg where
   /-- `H4.Gen.Src.HCLOSE_CHECKS_ID_AIDS`: `Hclose` refuses a file id through which access elements are still attached, also
       when other ids keep the file open -/
   closeChecksAids : Bool := true
+  /-- `H4.Gen.Src.SPINFO_SHARED_PER_FILE_ID`: `HPcompare_accrec_tagref` (the `HAsearch_atom` callback of `HIgetspinfo`) matches two
+      access records only if they were started through the SAME file id: special information, and the access elements it holds
+      itself, are shared between the access records of one file id, never across the ids of one file -/
+  spPerFileId : Bool := true
 deriving DecidableEq, Repr
 
-def Cfg.current : Cfg := ⟨H4.Gen.Src.H_CHECKS_ID_KIND, H4.Gen.Src.HCLOSE_CHECKS_ID_AIDS⟩
+def Cfg.current : Cfg := ⟨H4.Gen.Src.H_CHECKS_ID_KIND, H4.Gen.Src.HCLOSE_CHECKS_ID_AIDS, H4.Gen.Src.SPINFO_SHARED_PER_FILE_ID⟩
 
 /-! ## the atom calls (= `H4.Atom.sstep` / `sres` / `slookup` on `World.atoms`: lemmas `atoms_reg`, `atoms_rem`, `atoms_obj`) -/
 
@@ -283,6 +287,146 @@ def run (cfg : Cfg) (w : World) : List Op → World
 def results (cfg : Cfg) (w : World) : List Op → List Res
   | [] => []
   | op :: ops => (step cfg w op).2 :: results cfg (step cfg w op).1 ops
+
+/-! ## special elements: information records that hold access elements of their own
+
+`Hstartaccess` on a special element calls the `stread` / `stwrite` function of its kind.  Two kinds start access elements of
+their own, through `access_rec->file_id`, and keep them until the information record is released:
+* compressed (`HCIstaccess`): `info->aid = Hstartread(access_rec->file_id, DFTAG_COMPRESSED, comp_ref)`; the record is private to
+  the access record (`HCPendaccess` → `HCIendaccess` ends it);
+* chunked (`HMCIstaccess`): `Vstart(access_rec->file_id)`, `info->aid = VSattach(access_rec->file_id, chktbl_ref, …)` (`VSattach`:
+  `vs->aid = Hstartread(…)`); the record is found again by `HIgetspinfo` (`HAsearch_atom(AIDGROUP, HPcompare_accrec_tagref, …)`)
+  and shared: `info->attached++`; `HMCPcloseAID` releases it (`VSdetach(info->aid)`) when `--info->attached == 0`.
+Linked-block and external elements share their information the same way but it holds no access element: nothing to model here.
+
+The layer below is written ON TOP of the H calls above: every call of it is a sequence of `Hstartaccess` / `Hendaccess` steps
+(`expand`) run by `step`, so every theorem about all histories of `Op`s holds for histories with special elements
+(`H4.Props.C13Files.spRun_is_history`). -/
+
+inductive SpKind where
+  | ordinary | linked | comp | chunked
+deriving DecidableEq, Repr, Inhabited
+
+/-- access elements the information record of a kind holds itself -/
+def SpKind.innerCount : SpKind → Nat
+  | .comp => 1
+  | .chunked => 1
+  | _ => 0
+
+/-- `HIgetspinfo` is asked for an existing record (and the record carries something this model sees) -/
+def SpKind.shared : SpKind → Bool
+  | .chunked => true
+  | _ => false
+
+/-- a special-information record that holds access elements -/
+structure SpInfo where
+  /-- `file_id` of the access record that read the information: its own access elements are started through it -/
+  fileId : Nat
+  /-- the element (a number standing for tag/ref) -/
+  elem : Nat
+  kind : SpKind
+  /-- the access ids that refer to it: `info->attached` = `users.length` -/
+  users : List Nat
+  /-- the access ids it holds itself -/
+  inner : List Nat
+deriving DecidableEq, Repr, Inhabited
+
+structure SpWorld where
+  w : World
+  infos : List SpInfo
+
+def SpWorld.init : SpWorld := ⟨World.init, []⟩
+
+/-- do two file ids designate the same file record? (`HIfid2rec(id1) == HIfid2rec(id2)`) -/
+def sameFile (cfg : Cfg) (w : World) (id1 id2 : Nat) : Bool :=
+  match lookF cfg w id1, lookF cfg w id2 with
+  | .file p _, .file p' _ => p == p'
+  | _, _ => false
+
+/-- `HPcompare_accrec_tagref` against a record that refers to `g`: same tag/ref, and started through the same file id
+    (a source without that test, `spPerFileId = false`: through any id of the same file) -/
+def spMatch (cfg : Cfg) (w : World) (id elem : Nat) (kind : SpKind) (g : SpInfo) : Bool :=
+  g.elem == elem && g.kind == kind && (if cfg.spPerFileId then g.fileId == id else sameFile cfg w g.fileId id)
+
+inductive SpOp where
+  /-- an H call on an ordinary element / a file (`Hendaccess` is routed to `endsp`) -/
+  | prim (op : Op)
+  /-- `Hstartaccess(id, tag, ref, flags)` on a special element of kind `kind` -/
+  | startsp (id elem : Nat) (kind : SpKind) (found write : Bool)
+  /-- `Hendaccess(aid)` -/
+  | endsp (aid : Nat)
+deriving DecidableEq, Repr, Inhabited
+
+/-- the information record `Hendaccess(aid)` detaches from -/
+def infoOf (sw : SpWorld) (aid : Nat) : Option SpInfo := sw.infos.find? (fun g => g.users.contains aid)
+
+/-- `Hendaccess(a)`: `HMCPendaccess` → `HMCPcloseAID` / `HCPendaccess` → `HCIendaccess` end the access elements of the information
+    record first when `a` is the last one that refers to it, then the record of `a` is released -/
+def endExpand (sw : SpWorld) (a : Nat) : List Op :=
+  match infoOf sw a with
+  | some g => if g.users.length ≤ 1 then g.inner.map .endaccess ++ [.endaccess a] else [.endaccess a]
+  | none => [.endaccess a]
+
+/-- the `Hstartaccess` / `Hendaccess` calls one call of the layer makes, in the order of the C code -/
+def expand (cfg : Cfg) (sw : SpWorld) : SpOp → List Op
+  | .prim (.endaccess a) => endExpand sw a
+  | .prim op => [op]
+  | .startsp id elem kind found write =>
+    match (startAccess cfg sw.w id found write).2 with
+    | .id _ =>
+      -- "HIgetspinfo": an information record another access record of this file id already refers to
+      if kind.shared && (sw.infos.any (spMatch cfg sw.w id elem kind)) then [.startaccess id found write]
+      else List.replicate kind.innerCount (.startaccess id true false) ++ [.startaccess id found write]
+    | _ => [.startaccess id found write]       -- refused before the special code is reached
+  | .endsp a => endExpand sw a
+
+def resIds : List Res → List Nat
+  | [] => []
+  | .id a :: t => a :: resIds t
+  | _ :: t => resIds t
+
+/-- `--info->attached`, the record is freed at 0 -/
+def endUpd (sw : SpWorld) (a : Nat) : List SpInfo :=
+  match infoOf sw a with
+  | some g =>
+    let i := sw.infos.findIdx (fun h => h.users.contains a)
+    if g.users.length ≤ 1 then sw.infos.eraseIdx i
+    else sw.infos.modify i (fun h => { h with users := h.users.erase a })
+  | none => sw.infos
+
+/-- the bookkeeping of information records after one call (`rs` = the results of its `expand`ed calls) -/
+def updInfos (cfg : Cfg) (sw : SpWorld) (rs : List Res) : SpOp → List SpInfo
+  | .prim (.endaccess a) => endUpd sw a
+  | .prim _ => sw.infos
+  | .startsp id elem kind _ _ =>
+    match rs.getLast? with
+    | some (.id a) =>
+      if kind.shared && (sw.infos.any (spMatch cfg sw.w id elem kind)) then
+        -- `info->attached++` on the FIRST record that matches
+        let i := sw.infos.findIdx (spMatch cfg sw.w id elem kind)
+        sw.infos.modify i (fun g => { g with users := a :: g.users })
+      else if kind.innerCount == 0 then sw.infos
+      else ⟨id, elem, kind, [a], (resIds rs).dropLast⟩ :: sw.infos
+    | _ => sw.infos
+  | .endsp a => endUpd sw a
+
+def spStep (cfg : Cfg) (sw : SpWorld) (op : SpOp) : SpWorld × Res :=
+  let ops := expand cfg sw op
+  let rs := results cfg sw.w ops
+  (⟨run cfg sw.w ops, updInfos cfg sw rs op⟩, rs.getLast?.getD .fail)
+
+def spRun (cfg : Cfg) (sw : SpWorld) : List SpOp → SpWorld
+  | [] => sw
+  | op :: ops => spRun cfg (spStep cfg sw op).1 ops
+
+def spResults (cfg : Cfg) (sw : SpWorld) : List SpOp → List Res
+  | [] => []
+  | op :: ops => (spStep cfg sw op).2 :: spResults cfg (spStep cfg sw op).1 ops
+
+/-- all the H calls a history of the layer makes -/
+def expandAll (cfg : Cfg) (sw : SpWorld) : List SpOp → List Op
+  | [] => []
+  | op :: ops => expand cfg sw op ++ expandAll cfg (spStep cfg sw op).1 ops
 
 /-- live file ids / access ids: the registrations of the two groups -/
 def liveFids (w : World) : List Info := w.fidg.live
